@@ -55,6 +55,10 @@ pub struct Outcome {
   pub excluded_known: u64,
   /// failures, possibly several (each with its own signature)
   pub failures: Vec<Failure>,
+  /// When the system under test is not reproducible from the generated case alone (random ids,
+  /// timestamps, hash order in file contents), the property can hand back a self-contained version
+  /// of the case (e.g. with the built files attached); it is saved as the replay instead.
+  pub replay_override: Option<Value>,
 }
 
 impl Outcome {
@@ -336,6 +340,10 @@ pub fn sanitize_sig(s: &str) -> String {
 }
 
 fn save_replay<P: Property>(case: &P::Case, fail: &Failure, seed: u64, tier: Tier) -> PathBuf {
+  save_replay_with::<P>(case, None, fail, seed, tier)
+}
+
+fn save_replay_with<P: Property>(case: &P::Case, over: Option<&Value>, fail: &Failure, seed: u64, tier: Tier) -> PathBuf {
   let dir = verif_root().join("replays").join(P::ID);
   let _ = std::fs::create_dir_all(&dir);
   let body = json!({
@@ -344,7 +352,7 @@ fn save_replay<P: Property>(case: &P::Case, fail: &Failure, seed: u64, tier: Tie
     "tier": tier.name(),
     "signature": fail.signature,
     "detail": fail.detail,
-    "case": case,
+    "case": match over { Some(v) => v.clone(), None => serde_json::to_value(case).unwrap_or(Value::Null) },
   });
   let name = format!("{}-{:016x}.json", sanitize_sig(&fail.signature).chars().take(60).collect::<String>(), fingerprint_json(case));
   let path = dir.join(name);
@@ -434,6 +442,20 @@ fn limit_address_space(bytes: u64) {
   }
 }
 
+thread_local! {
+  static NOTE_PATH: std::cell::RefCell<Option<PathBuf>> = const { std::cell::RefCell::new(None) };
+}
+
+/// Isolated runs: remember what the current case is doing right now (which sub-case), so that the
+/// supervisor can say more than "this case killed the process".
+pub fn note_inflight(note: &str) {
+  NOTE_PATH.with(|p| {
+    if let Some(path) = p.borrow().as_ref() {
+      let _ = std::fs::write(path, note.as_bytes());
+    }
+  });
+}
+
 fn inflight_dir() -> Option<PathBuf> {
   std::env::var("VERIF_INFLIGHT_DIR").ok().map(PathBuf::from)
 }
@@ -482,7 +504,7 @@ fn supervise<P: Property>(tier: Tier) -> i32 {
   }
   // the child died (signal / abort), reported a hang (3) or ran out of its budget (-2)
   let known = KnownFindings::load(&verif_root().join("known_findings.txt"));
-  let mut files: Vec<PathBuf> = std::fs::read_dir(&dir).map(|rd| rd.filter_map(|e| e.ok().map(|e| e.path())).collect()).unwrap_or_default();
+  let mut files: Vec<PathBuf> = std::fs::read_dir(&dir).map(|rd| rd.filter_map(|e| e.ok().map(|e| e.path())).filter(|p| p.extension().map(|x| x == "json").unwrap_or(false)).collect()).unwrap_or_default();
   files.sort();
   let mut result = 2;
   let mut reported = Vec::new();
@@ -503,7 +525,8 @@ fn supervise<P: Property>(tier: Tier) -> i32 {
     let _ = std::fs::create_dir_all(&destdir);
     let text = std::fs::read_to_string(&f).unwrap_or_default();
     let dest = destdir.join(format!("{}-{:016x}.json", sig, fingerprint(&text)));
-    let body = json!({"property": P::ID, "seed": seed, "tier": tier.name(), "signature": sig, "detail": "the process running this case died or hung (see signature); replay it in a fresh process", "case": serde_json::from_str::<Value>(&text).unwrap_or(Value::Null)});
+    let note = std::fs::read_to_string(f.with_extension("note")).unwrap_or_default();
+    let body = json!({"property": P::ID, "seed": seed, "tier": tier.name(), "signature": sig, "detail": format!("the process running this case died or hung (see signature); replay it in a fresh process. Last note of the worker: {note}"), "case": serde_json::from_str::<Value>(&text).unwrap_or(Value::Null)});
     let _ = std::fs::write(&dest, serde_json::to_vec_pretty(&body).unwrap());
     if known.is_known(P::ID, &sig) {
       println!("KNOWN-FINDING: property={} {} [{}]", P::ID, known.what(P::ID, &sig), sig);
@@ -610,7 +633,7 @@ pub fn run_property<P: Property>(tier: Tier) -> i32 {
       }
       let o = run_guarded::<P>(&case, &ctx);
       if let Some(f) = record(&case, &o, true) {
-        let path = save_replay::<P>(&case, &f, seed, tier);
+        let path = save_replay_with::<P>(&case, o.replay_override.as_ref(), &f, seed, tier);
         stats.lock().unwrap().violations.push((f.signature.clone(), path));
         stop.store(true, Ordering::SeqCst);
         break;
@@ -665,7 +688,7 @@ pub fn run_property<P: Property>(tier: Tier) -> i32 {
           cases: cases_per_worker,
           failure_persistence: None,
           rng_seed: RngSeed::Fixed(wseed),
-          max_shrink_iters: P::shrink_iters(),
+          max_shrink_iters: if std::env::var("VERIF_NO_SHRINK").is_ok() { 0 } else { P::shrink_iters() },
           max_global_rejects: 100_000,
           ..Config::default()
         };
@@ -673,12 +696,19 @@ pub fn run_property<P: Property>(tier: Tier) -> i32 {
         let mut runner = TestRunner::new_with_rng(config, rng);
         let strategy = P::strategy(tier);
         let failed_once = AtomicBool::new(false);
+        let last_fail: Mutex<Option<(P::Case, Failure, Option<Value>)>> = Mutex::new(None);
         let res = runner.run(&strategy, |case| {
           if stop.load(Ordering::SeqCst) && !failed_once.load(Ordering::SeqCst) {
             return Ok(());
           }
           let counting = !failed_once.load(Ordering::SeqCst);
           if let Some(dir) = inflight.as_ref() {
+            NOTE_PATH.with(|p| {
+              if p.borrow().is_none() {
+                *p.borrow_mut() = Some(dir.join(format!("w{w}.note")));
+              }
+            });
+            note_inflight("");
             let _ = std::fs::write(dir.join(format!("w{w}.json")), serde_json::to_vec(&case).unwrap_or_default());
             starts[w].store(t_origin.elapsed().as_secs() + 1, Ordering::Relaxed);
           }
@@ -691,6 +721,7 @@ pub fn run_property<P: Property>(tier: Tier) -> i32 {
             None => Ok(()),
             Some(f) => {
               failed_once.store(true, Ordering::SeqCst);
+              *last_fail.lock().unwrap() = Some((case.clone(), f.clone(), o.replay_override.clone()));
               Err(TestCaseError::fail(f.signature))
             }
           }
@@ -700,13 +731,16 @@ pub fn run_property<P: Property>(tier: Tier) -> i32 {
           Err(TestError::Fail(_reason, case)) => {
             // minimal case: re-run for the detail of the surviving failure
             let o = run_guarded::<P>(&case, &ctx);
-            let f = o
-              .failures
-              .iter()
-              .find(|f| !ctx.known.is_known(P::ID, &f.signature))
-              .cloned()
-              .unwrap_or(Failure { signature: "unstable-failure".into(), detail: "shrunk case no longer fails when re-run (non-deterministic failure)".into() });
-            let path = save_replay::<P>(&case, &f, seed, tier);
+            let rerun = o.failures.iter().find(|f| !ctx.known.is_known(P::ID, &f.signature)).cloned();
+            let (case, f, over) = match rerun {
+              Some(f) => (case, f, o.replay_override.clone()),
+              // the re-run passed: report the last failing run seen while shrinking
+              None => match last_fail.lock().unwrap().take() {
+                Some(x) => x,
+                None => (case, Failure { signature: "unstable-failure".into(), detail: "shrunk case no longer fails when re-run (non-deterministic failure)".into() }, None),
+              },
+            };
+            let path = save_replay_with::<P>(&case, over.as_ref(), &f, seed, tier);
             stats.lock().unwrap().violations.push((f.signature.clone(), path));
             stop.store(true, Ordering::SeqCst);
           }
